@@ -151,9 +151,11 @@ def run(ctx):
     fcs = [j for j in r.json_lines if "features" in j]
     rng = ctx.rng
     chosen = [f for f in fcs if len(f["features"]) <= 1] + rng.sample(fcs, 2500 if quick else len(fcs))
+    # the collection without features several times more, always with further top-level members
+    empties = [f for f in fcs if not f["features"]][:1] * 6
     records, metas = [], []
-    for afc in chosen:
-        k = rng.randint(0, 3)
+    for n_, afc in enumerate(empties + chosen):
+        k = rng.randint(1, 3) if n_ < len(empties) else rng.randint(0, 3)
         names = rng.sample(range(len(META_NAMES)), k)
         meta = [(n, rng.randrange(len(META_VALS))) for n in names]
         wkind = rng.choice(["float", "bool"])
